@@ -2,6 +2,7 @@
   C02 — first-fit lines fit the width unless the line is one unbreakable fragment.
 -/
 import Lemmas.GreedyWidth
+import Lemmas.OverflowStable
 import Props.C05
 namespace TW.C02
 
@@ -289,5 +290,118 @@ example :
                       sep := .ascii, splitter := .hyphen, alg := .firstFit, lineEnding := .lf }
     (wrap (α := Int) env (fun _ _ => []) o "a\nbb cc dd".toList).map (·.map String.ofList) =
       some ["a", "    bb", "    cc", "    dd"] := by decide
+
+/-! ### the exception clause with `break_words` off (ASCII separator, any indents) -/
+
+theorem points_sub (isAlnum : Char → Bool) (sp : Splitter) (hb : Builtin sp) (pre u post : Text)
+    (h : sp.points isAlnum (pre ++ u ++ post) = []) : sp.points isAlnum u = [] := by
+  cases sp with
+  | none => rfl
+  | hyphen => exact pointFree_sub isAlnum pre u post h
+  | custom f => exact absurd hb (by simp [Builtin])
+
+/-- **`break_words` off, ASCII separator, both built-in splitters, any indents, every paragraph
+    of a text**: every first-fit line fits next to the indent it is rendered with, or the part
+    after the indent is ONE fragment that contains no space (no break opportunity of the ASCII
+    separator) and no split point of the configured splitter — the property's exception clause.
+    Safe lines (`SeqSafe`; the complement is the finding class KF-1a/KF-1b). -/
+-- @audit TW.C02.firstfit_nobreak_exception_ascii
+theorem firstfit_nobreak_exception_ascii (env : Env) (hsp : env.cw SP = 1) (mo : MinimaOracle Int) (o : Opts)
+    (halg : o.alg = .firstFit) (hsep : o.sep = .ascii) (hb : Builtin o.splitter) (hbw : o.breakWords = false)
+    (p : Text) (hsafe : SeqSafe o.splitter p) (n : Nat) (frs : List Word)
+    (hpipe : pipeline env o p (o.width - displayWidth env.cw o.subsequentIndent) = some frs) :
+    ∃ groups : List (List Word),
+      wrapSingleLineSlow env mo o p n = some (specLines o groups 0 n) ∧
+      groups.flatten = frs ∧
+      ∀ k g, groups[k]? = some g →
+        displayWidth env.cw (groupSlice g) ≤ o.width - displayWidth env.cw (indentOf o (n + k)) ∨
+        (∃ f, g = [f] ∧ groupSlice g = f.word ∧ SP ∉ f.word ∧ f.word ≠ [] ∧
+          o.splitter.points env.isAlnum f.word = []) := by
+  have hn := pipeline_hnorm env o hb p hsafe _ frs hpipe
+  obtain ⟨G, g1, g2, g3⟩ := firstfit_line_width env hsp mo o hb halg p n frs hpipe hn
+  refine ⟨G, g1, g2, ?_⟩
+  intro k g hk
+  have hg : g ∈ G := List.mem_of_getElem? hk
+  match g, hk, hg with
+  | [], _, _ => left; simp [groupSlice, displayWidth, dwFrom]
+  | a :: b :: r, hk, _ => left; exact (g3 k _ hk (by simp)).1
+  | [f], hk, hg =>
+    by_cases hfit : displayWidth env.cw (groupSlice [f]) ≤ o.width - displayWidth env.cw (indentOf o (n + k))
+    · exact Or.inl hfit
+    · right
+      have hfm : f ∈ frs := by rw [← g2]; exact List.mem_flatten.mpr ⟨[f], hg, by simp⟩
+      have hslice : groupSlice [f] = f.word := by simp [groupSlice]
+      refine ⟨f, rfl, hslice, ?_⟩
+      rw [hslice] at hfit
+      -- with `break_words` off the fragments are the pieces of the words
+      have hshape : splitWords env o.splitter (findWordsAscii env.cw p) = some frs := by
+        unfold pipeline at hpipe
+        simp only [hsep, findWords] at hpipe
+        split at hpipe
+        · simp at hpipe
+        · next sws hs =>
+          simp only [hbw, Bool.false_eq_true, if_false, Option.some.injEq] at hpipe
+          rw [hs, hpipe]
+      obtain ⟨⟨w, hw, A', B', ew⟩, hpts⟩ := splitWords_pieces env o.splitter hb _ frs hshape f hfm
+      refine ⟨?_, ?_, hpts⟩
+      · intro hm
+        apply findWordsAscii_noSP env.cw p w hw
+        rw [ew]
+        simp [hm]
+      · intro he
+        rw [he] at hfit
+        simp [displayWidth, dwFrom] at hfit
+
+/-- **`break_words` off, Unicode separator**: every first-fit line fits next to its indent, or
+    the part after the indent is ONE fragment without a split point of the configured splitter
+    which is a contiguous part of one word of the separator. By `C11.unicode_no_inner_opportunity`
+    such a word contains no break opportunity of the separator (relative to the opportunities
+    `unicode_linebreak` returned), so the fragment is unbreakable in the property's sense. -/
+-- @audit TW.C02.firstfit_nobreak_exception_unicode
+theorem firstfit_nobreak_exception_unicode (env : Env) (hsp : env.cw SP = 1) (mo : MinimaOracle Int) (o : Opts)
+    (halg : o.alg = .firstFit) (hsep : o.sep = .unicode) (hb : Builtin o.splitter) (hbw : o.breakWords = false)
+    (p : Text) (hsafe : SeqSafe o.splitter p) (n : Nat) (frs : List Word)
+    (hpipe : pipeline env o p (o.width - displayWidth env.cw o.subsequentIndent) = some frs) :
+    ∃ groups : List (List Word),
+      wrapSingleLineSlow env mo o p n = some (specLines o groups 0 n) ∧
+      groups.flatten = frs ∧
+      ∀ k g, groups[k]? = some g →
+        displayWidth env.cw (groupSlice g) ≤ o.width - displayWidth env.cw (indentOf o (n + k)) ∨
+        (∃ f, g = [f] ∧ groupSlice g = f.word ∧ f.word ≠ [] ∧
+          o.splitter.points env.isAlnum f.word = [] ∧
+          ∃ ws, findWordsUnicode env p = some ws ∧ ∃ w ∈ ws, ∃ A B, w.word = A ++ f.word ++ B) := by
+  have hn := pipeline_hnorm env o hb p hsafe _ frs hpipe
+  obtain ⟨G, g1, g2, g3⟩ := firstfit_line_width env hsp mo o hb halg p n frs hpipe hn
+  refine ⟨G, g1, g2, ?_⟩
+  intro k g hk
+  have hg : g ∈ G := List.mem_of_getElem? hk
+  match g, hk, hg with
+  | [], _, _ => left; simp [groupSlice, displayWidth, dwFrom]
+  | a :: b :: r, hk, _ => left; exact (g3 k _ hk (by simp)).1
+  | [f], hk, hg =>
+    by_cases hfit : displayWidth env.cw (groupSlice [f]) ≤ o.width - displayWidth env.cw (indentOf o (n + k))
+    · exact Or.inl hfit
+    · right
+      have hfm : f ∈ frs := by rw [← g2]; exact List.mem_flatten.mpr ⟨[f], hg, by simp⟩
+      have hslice : groupSlice [f] = f.word := by simp [groupSlice]
+      refine ⟨f, rfl, hslice, ?_⟩
+      rw [hslice] at hfit
+      have hshape : ∃ ws, findWordsUnicode env p = some ws ∧ splitWords env o.splitter ws = some frs := by
+        unfold pipeline at hpipe
+        simp only [hsep, findWords] at hpipe
+        split at hpipe
+        · simp at hpipe
+        · next ws hws =>
+          split at hpipe
+          · simp at hpipe
+          · next sws hs =>
+            simp only [hbw, Bool.false_eq_true, if_false, Option.some.injEq] at hpipe
+            exact ⟨ws, hws, by rw [hs, hpipe]⟩
+      obtain ⟨ws, hws, hsw⟩ := hshape
+      obtain ⟨⟨w, hw, A', B', ew⟩, hpts⟩ := splitWords_pieces env o.splitter hb _ frs hsw f hfm
+      refine ⟨?_, hpts, ws, hws, w, hw, A', B', ew⟩
+      intro he
+      rw [he] at hfit
+      simp [displayWidth, dwFrom] at hfit
 
 end TW.C02
